@@ -88,23 +88,33 @@ theorem atan2_scaled {T : Trig R} (hT : TrigOK T) (k sx cx : R) (hk : k ≠ 0) (
   · rw [div_mul_eq_mul_div, eq_div_iff hρ0]
     linear_combination -e2
 
-/-- **Tait–Bryan orders, away from gimbal lock** (`|cos β| > lim ≥ 0`, the general branch): for every angle triple `r`
-converting `rotateE(r)` to Euler angles and back gives the same rotation matrix -/
+/-- **Tait–Bryan orders, away from gimbal lock** (`|cos β| > lim ≥ 0`, the last angle is read from the small elements):
+for every angle triple `r`, converting `rotateE(r)` to Euler angles and back gives the same rotation matrix -/
 theorem euler_tb_roundtrip {T : Trig R} (hT : TrigOK T) {C : Cmp R} (hC : CmpStd C) (lim : R) (hlim : 0 ≤ lim) (r : V3 R)
     (a0 a1 a2 : Nat) (h0 : a0 < 3) (h1 : a1 < 3) (h2 : a2 < 3) (h01 : a0 ≠ a1) (h12 : a1 ≠ a2) (h02 : a0 ≠ a2)
     (hnd : lim < |T.cos r.y|) :
     toM4 (Gen.M4.rotateE (fld R) T
       (Gen.M4.eulerAngles (fld R) C T lim (Gen.M4.rotateE (fld R) T r a0 a1 a2) a0 a1 a2) a0 a1 a2) =
     toM4 (Gen.M4.rotateE (fld R) T r a0 a1 a2) := by
-  obtain ⟨e1, e2, e3, e4, e5⟩ := tb_entries T r a0 a1 a2 h0 h1 h2 h01 h12 h02
-  set M := Gen.M4.rotateE (fld R) T r a0 a1 a2 with hM
+  obtain ⟨e1, -, -, e4, e5⟩ := tb_entries T r a0 a1 a2 h0 h1 h2 h01 h12 h02
   have hss := tbSign_sq (R := R) a0 a1
   have hs2 : (tbSign a0 a1 : R) * tbSign a0 a1 = 1 := by rcases hss with h | h <;> rw [h] <;> ring
   have hub := hT.unit r.y
   have huz := hT.unit r.z
   have hcb : T.cos r.y ≠ 0 := by
     intro h; rw [h, abs_zero] at hnd; linarith
-  -- the value of `c`
+  obtain ⟨ρ0, hρ0, hq0, hs0, hc0⟩ := atan2_scaled hT (T.cos r.y) (T.sin r.z) (T.cos r.z) hcb (hT.unit r.z)
+  have hρabs : ρ0 = |T.cos r.y| :=
+    pos_root_unique (le_of_lt hρ0) (abs_pos.mpr hcb) (by rw [hq0, abs_mul_abs_self])
+  have hne : ρ0 ≠ 0 := ne_of_gt hρ0
+  have hε : T.cos r.y / ρ0 = 1 ∨ T.cos r.y / ρ0 = -1 := by
+    have : (T.cos r.y / ρ0) * (T.cos r.y / ρ0) = 1 := by
+      field_simp; linear_combination -hq0
+    exact mul_self_eq_one_iff.mp this
+  -- the last rotation removed
+  obtain ⟨hm1, hm2⟩ := tb_strip T hT.unit r (-(T.atan2 (T.sin r.z * T.cos r.y) (T.cos r.z * T.cos r.y))) (T.cos r.y / ρ0) hε
+    (by rw [hT.sin_neg, hs0]) (by rw [hT.cos_neg, hc0]) a0 a1 a2 h0 h1 h2 h01 h12 h02
+  set M := Gen.M4.rotateE (fld R) T r a0 a1 a2 with hM
   have hc : C.sqrt (M a0 a0 * M a0 a0 + M a0 a1 * M a0 a1) = |T.cos r.y| := by
     have : M a0 a0 * M a0 a0 + M a0 a1 * M a0 a1 = T.cos r.y * T.cos r.y := by
       have e4' : M a0 a1 * M a0 a1 = (T.sin r.z * T.cos r.y) * (T.sin r.z * T.cos r.y) := by
@@ -113,25 +123,17 @@ theorem euler_tb_roundtrip {T : Trig R} (hT : TrigOK T) {C : Cmp R} (hC : CmpStd
     rw [this]; exact sqrt_sq hC _
   have hcond : C.lt lim |T.cos r.y| = true := by rw [hC.lt]; simpa using hnd
   have hE : Gen.M4.eulerAngles (fld R) C T lim M a0 a1 a2 =
-      ⟨T.atan2 (T.sin r.x * T.cos r.y) (T.cos r.x * T.cos r.y), T.atan2 (T.sin r.y) |T.cos r.y|,
+      ⟨T.atan2 (T.cos r.y / ρ0 * T.sin r.x) (T.cos r.y / ρ0 * T.cos r.x), T.atan2 (T.sin r.y) |T.cos r.y|,
        T.atan2 (T.sin r.z * T.cos r.y) (T.cos r.z * T.cos r.y)⟩ := by
-    unfold tbSign at e1 e2 e4
+    unfold tbSign at e1 e4 hm1
     simp only [Gen.M4.eulerAngles, h02, ne_eq, not_false_eq_true, if_true, fld_mul, fld_add, fld_neg, fld_lit, Nat.cast_one, hc, hcond]
-    simp only [e1, e2, e3, e4, e5]
+    simp only [e1, e4, e5, hm1, hm2]
   rw [hE]
   obtain ⟨ha1, ha2⟩ := atan2_unit hT (T.sin r.y) |T.cos r.y| (by rw [abs_mul_abs_self]; exact hub)
-  obtain ⟨ρ2, hρ2, hq2, hs2', hc2⟩ := atan2_scaled hT (T.cos r.y) (T.sin r.x) (T.cos r.x) hcb (hT.unit r.x)
-  obtain ⟨ρ0, hρ0, hq0, hs0, hc0⟩ := atan2_scaled hT (T.cos r.y) (T.sin r.z) (T.cos r.z) hcb (hT.unit r.z)
-  have hρ : ρ0 = ρ2 := pos_root_unique (le_of_lt hρ0) hρ2 (by rw [hq0, hq2])
-  subst hρ
-  have hρabs : ρ0 = |T.cos r.y| :=
-    pos_root_unique (le_of_lt hρ0) (abs_pos.mpr hcb) (by rw [hq0, abs_mul_abs_self])
-  have hne : ρ0 ≠ 0 := ne_of_gt hρ0
-  have hε : T.cos r.y / ρ0 = 1 ∨ T.cos r.y / ρ0 = -1 := by
-    have : (T.cos r.y / ρ0) * (T.cos r.y / ρ0) = 1 := by
-      field_simp; linear_combination -hq0
-    exact mul_self_eq_one_iff.mp this
-  apply tb_compose T r _ (T.cos r.y / ρ0) hε ⟨hs2', hc2⟩ ⟨ha1, ?_⟩ ⟨hs0, hc0⟩ a0 a1 a2 h0 h1 h2 h01 h12 h02
+  obtain ⟨hx1, hx2⟩ := atan2_unit hT (T.cos r.y / ρ0 * T.sin r.x) (T.cos r.y / ρ0 * T.cos r.x) (by
+    have hux := hT.unit r.x
+    rcases hε with h | h <;> rw [h] <;> linear_combination hux)
+  apply tb_compose T r _ (T.cos r.y / ρ0) hε ⟨hx1, hx2⟩ ⟨ha1, ?_⟩ ⟨hs0, hc0⟩ a0 a1 a2 h0 h1 h2 h01 h12 h02
   show T.cos (T.atan2 (T.sin r.y) |T.cos r.y|) = T.cos r.y / ρ0 * T.cos r.y
   rw [ha2, ← hρabs]
   field_simp
@@ -144,13 +146,23 @@ theorem euler_pe_roundtrip {T : Trig R} (hT : TrigOK T) {C : Cmp R} (hC : CmpStd
       (Gen.M4.eulerAngles (fld R) C T lim (Gen.M4.rotateE (fld R) T r a0 a1 a0) a0 a1 a0) a0 a1 a0) =
     toM4 (Gen.M4.rotateE (fld R) T r a0 a1 a0) := by
   obtain ⟨e1, e2, e3, e4, e5⟩ := pe_entries T r a0 a1 h0 h1 h01
-  set M := Gen.M4.rotateE (fld R) T r a0 a1 a0 with hM
   have hss := peSign_sq (R := R) a0 a1
   have hs2 : (peSign a0 a1 : R) * peSign a0 a1 = 1 := by rcases hss with h | h <;> rw [h] <;> ring
   have hub := hT.unit r.y
   have hux := hT.unit r.x
   have hsb : T.sin r.y ≠ 0 := by
     intro h; rw [h, abs_zero] at hnd; linarith
+  obtain ⟨ρ0, hρ0, hq0, hs0, hc0⟩ := atan2_scaled hT (T.sin r.y) (T.sin r.z) (T.cos r.z) hsb (hT.unit r.z)
+  have hρabs : ρ0 = |T.sin r.y| :=
+    pos_root_unique (le_of_lt hρ0) (abs_pos.mpr hsb) (by rw [hq0, abs_mul_abs_self])
+  have hne : ρ0 ≠ 0 := ne_of_gt hρ0
+  have hε : T.sin r.y / ρ0 = 1 ∨ T.sin r.y / ρ0 = -1 := by
+    have : (T.sin r.y / ρ0) * (T.sin r.y / ρ0) = 1 := by
+      field_simp; linear_combination -hq0
+    exact mul_self_eq_one_iff.mp this
+  obtain ⟨hm1, hm2⟩ := pe_strip T hT.unit r (-(T.atan2 (T.sin r.z * T.sin r.y) (T.cos r.z * T.sin r.y))) (T.sin r.y / ρ0) hε
+    (by rw [hT.sin_neg, hs0]) (by rw [hT.cos_neg, hc0]) a0 a1 h0 h1 h01
+  set M := Gen.M4.rotateE (fld R) T r a0 a1 a0 with hM
   have hc : C.sqrt (M a1 a0 * M a1 a0 + M (3 - a0 - a1) a0 * M (3 - a0 - a1) a0) = |T.sin r.y| := by
     have : M a1 a0 * M a1 a0 + M (3 - a0 - a1) a0 * M (3 - a0 - a1) a0 = T.sin r.y * T.sin r.y := by
       have e3' : M (3 - a0 - a1) a0 * M (3 - a0 - a1) a0 = (T.cos r.x * T.sin r.y) * (T.cos r.x * T.sin r.y) := by
@@ -159,37 +171,23 @@ theorem euler_pe_roundtrip {T : Trig R} (hT : TrigOK T) {C : Cmp R} (hC : CmpStd
     rw [this]; exact sqrt_sq hC _
   have hcond : C.lt lim |T.sin r.y| = true := by rw [hC.lt]; simpa using hnd
   have hE : Gen.M4.eulerAngles (fld R) C T lim M a0 a1 a0 =
-      ⟨T.atan2 (T.sin r.x * T.sin r.y) (T.cos r.x * T.sin r.y), T.atan2 |T.sin r.y| (T.cos r.y),
+      ⟨T.atan2 (T.sin r.y / ρ0 * T.sin r.x) (T.sin r.y / ρ0 * T.cos r.x), T.atan2 |T.sin r.y| (T.cos r.y),
        T.atan2 (T.sin r.z * T.sin r.y) (T.cos r.z * T.sin r.y)⟩ := by
-    unfold peSign at e3 e5
+    unfold peSign at e5 hm1
     simp only [Gen.M4.eulerAngles, ne_eq, not_true_eq_false, if_false, fld_mul, fld_add, fld_neg, fld_lit, Nat.cast_one,
       hc, hcond, if_true]
-    simp only [e1, e2, e3, e4, e5]
+    simp only [e1, e4, e5, hm1, hm2]
   rw [hE]
   obtain ⟨ha1, ha2⟩ := atan2_unit hT |T.sin r.y| (T.cos r.y) (by rw [abs_mul_abs_self]; exact hub)
-  obtain ⟨ρ2, hρ2, hq2, hs2', hc2⟩ := atan2_scaled hT (T.sin r.y) (T.sin r.x) (T.cos r.x) hsb (hT.unit r.x)
-  obtain ⟨ρ0, hρ0, hq0, hs0, hc0⟩ := atan2_scaled hT (T.sin r.y) (T.sin r.z) (T.cos r.z) hsb (hT.unit r.z)
-  have hρ : ρ0 = ρ2 := pos_root_unique (le_of_lt hρ0) hρ2 (by rw [hq0, hq2])
-  subst hρ
-  have hρabs : ρ0 = |T.sin r.y| :=
-    pos_root_unique (le_of_lt hρ0) (abs_pos.mpr hsb) (by rw [hq0, abs_mul_abs_self])
-  have hne : ρ0 ≠ 0 := ne_of_gt hρ0
-  have hε : T.sin r.y / ρ0 = 1 ∨ T.sin r.y / ρ0 = -1 := by
-    have : (T.sin r.y / ρ0) * (T.sin r.y / ρ0) = 1 := by
-      field_simp; linear_combination -hq0
-    exact mul_self_eq_one_iff.mp this
-  apply pe_compose T r _ (T.sin r.y / ρ0) hε ⟨hs2', hc2⟩ ⟨?_, ha2⟩ ⟨hs0, hc0⟩ a0 a1 h0 h1 h01
+  obtain ⟨hx1, hx2⟩ := atan2_unit hT (T.sin r.y / ρ0 * T.sin r.x) (T.sin r.y / ρ0 * T.cos r.x) (by
+    rcases hε with h | h <;> rw [h] <;> linear_combination hux)
+  apply pe_compose T r _ (T.sin r.y / ρ0) hε ⟨hx1, hx2⟩ ⟨?_, ha2⟩ ⟨hs0, hc0⟩ a0 a1 h0 h1 h01
   show T.sin (T.atan2 |T.sin r.y| (T.cos r.y)) = T.sin r.y / ρ0 * T.sin r.y
   rw [ha1, ← hρabs]
   field_simp
   linear_combination hq0
 
-/-- `sin (m x) = m sin x`, `cos (m x) = cos x` for `m = ±1` -/
-theorem trig_pm {T : Trig R} (hT : TrigOK T) (m : R) (hm : m = 1 ∨ m = -1) (x : R) :
-    T.sin (m * x) = m * T.sin x ∧ T.cos (m * x) = T.cos x := by
-  rcases hm with h | h <;> rw [h] <;> simp [hT.sin_neg, hT.cos_neg]
-
-/-- **Tait–Bryan orders exactly on the gimbal lock** (`cos β = 0`): the locked branch reproduces the rotation -/
+/-- **Tait–Bryan orders exactly on the gimbal lock** (`cos β = 0`, last angle set to 0): the rotation is reproduced -/
 theorem euler_tb_locked {T : Trig R} (hT : TrigOK T) {C : Cmp R} (hC : CmpStd C) (lim : R) (hlim : 0 ≤ lim) (r : V3 R)
     (a0 a1 a2 : Nat) (h0 : a0 < 3) (h1 : a1 < 3) (h2 : a2 < 3) (h01 : a0 ≠ a1) (h12 : a1 ≠ a2) (h02 : a0 ≠ a2)
     (hc : T.cos r.y = 0) :
@@ -201,12 +199,13 @@ theorem euler_tb_locked {T : Trig R} (hT : TrigOK T) {C : Cmp R} (hC : CmpStd C)
     rw [hc] at hub
     exact mul_self_eq_one_iff.mp (by linear_combination hub)
   obtain ⟨e1, -, -, e4, e5⟩ := tb_entries T r a0 a1 a2 h0 h1 h2 h01 h12 h02
-  have hcirc := tb_lock_entries T hT.unit r (T.sin r.y) hσ rfl hc a0 a1 a2 h0 h1 h2 h01 h12 h02
-  set M := Gen.M4.rotateE (fld R) T r a0 a1 a2 with hM
+  have hψs : T.sin (-(0 : R)) = 0 := by rw [neg_zero]; exact hT.sin_zero
+  have hψc : T.cos (-(0 : R)) = 1 := by rw [neg_zero]; exact hT.cos_zero
+  have hcirc := tb_lock2_entries T hT.unit r (T.sin r.y) (-(0 : R)) hσ rfl hc hψs hψc a0 a1 a2 h0 h1 h2 h01 h12 h02
   have hss := tbSign_sq (R := R) a0 a1
   have hs2 : (tbSign a0 a1 : R) * tbSign a0 a1 = 1 := by rcases hss with h | h <;> rw [h] <;> ring
-  have hM02 : M a0 a2 = -(tbSign a0 a1 : R) * T.sin r.y := by
-    rcases hss with h | h <;> rw [h] at e1 ⊢ <;> first | linear_combination -e1 | linear_combination e1
+  set M := Gen.M4.rotateE (fld R) T r a0 a1 a2 with hM
+  set m := Gen.M4.mul (fld R) M (Gen.M4.rotateAxis (fld R) T a2 (-(0 : R))) with hm
   have h00 : M a0 a0 = 0 := by rw [e5, hc]; ring
   have h01' : M a0 a1 = 0 := by
     have : (tbSign a0 a1 : R) * M a0 a1 = 0 := by rw [e4, hc]; ring
@@ -215,25 +214,16 @@ theorem euler_tb_locked {T : Trig R} (hT : TrigOK T) {C : Cmp R} (hC : CmpStd C)
     obtain ⟨_, h2'⟩ := hC.sqrt 0 (le_refl _)
     exact mul_self_eq_zero.mp h2'
   have hcond : C.lt lim 0 = false := by rw [hC.lt]; simpa using hlim
-  obtain ⟨q1, q2⟩ := atan2_unit hT (-(tbSign a0 a1 : R) * M a1 a0) (M a1 a1) (by linear_combination hcirc + (M a1 a0 * M a1 a0) * hs2)
+  obtain ⟨q1, q2⟩ := atan2_unit hT (-(tbSign a0 a1 : R) * m a2 a1) (m a1 a1) (by linear_combination hcirc + (m a2 a1 * m a2 a1) * hs2)
   obtain ⟨p1, p2⟩ := atan2_unit hT (T.sin r.y) 0 (by rcases hσ with h | h <;> rw [h] <;> ring)
   have hE : Gen.M4.eulerAngles (fld R) C T lim M a0 a1 a2 =
-      ⟨M a0 a2 * T.atan2 (-(tbSign a0 a1 : R) * M a1 a0) (M a1 a1), T.atan2 (T.sin r.y) 0, 0⟩ := by
+      ⟨T.atan2 (-(tbSign a0 a1 : R) * m a2 a1) (m a1 a1), T.atan2 (T.sin r.y) 0, 0⟩ := by
     unfold tbSign at e1 ⊢
     simp only [Gen.M4.eulerAngles, h02, ne_eq, not_false_eq_true, if_true, fld_mul, fld_add, fld_neg, fld_lit, Nat.cast_one, Nat.cast_zero,
-      h00, h01', mul_zero, add_zero, hs0, hcond, Bool.false_eq_true, if_false, e1]
+      h00, h01', mul_zero, add_zero, hs0, hcond, Bool.false_eq_true, if_false, e1, ← hm]
   rw [hE]
-  have hm : M a0 a2 = 1 ∨ M a0 a2 = -1 := by
-    rw [hM02]
-    rcases hss with h | h <;> rcases hσ with h' | h' <;> rw [h, h'] <;> simp
-  apply tb_lock_compose T r _ (T.sin r.y) hσ rfl hc a0 a1 a2 h0 h1 h2 h01 h12 h02
-  · show T.sin (M a0 a2 * T.atan2 (-(tbSign a0 a1 : R) * M a1 a0) (M a1 a1)) = _ ∧
-      T.cos (M a0 a2 * T.atan2 (-(tbSign a0 a1 : R) * M a1 a0) (M a1 a1)) = _
-    constructor
-    · rw [(trig_pm hT _ hm _).1, q1, hM02]; ring
-    · rw [(trig_pm hT _ hm _).2, q2]
-  · exact ⟨p1, p2⟩
-  · exact ⟨hT.sin_zero, hT.cos_zero⟩
+  exact tb_lock2_compose T r _ (T.sin r.y) (-(0 : R)) hσ rfl hc hψs hψc a0 a1 a2 h0 h1 h2 h01 h12 h02 ⟨q1, q2⟩ ⟨p1, p2⟩
+    ⟨hT.sin_zero, hT.cos_zero⟩
 
 /-- **proper Euler orders exactly on the lock** (`sin β = 0`) -/
 theorem euler_pe_locked {T : Trig R} (hT : TrigOK T) {C : Cmp R} (hC : CmpStd C) (lim : R) (hlim : 0 ≤ lim) (r : V3 R)
@@ -246,10 +236,13 @@ theorem euler_pe_locked {T : Trig R} (hT : TrigOK T) {C : Cmp R} (hC : CmpStd C)
     rw [hs] at hub
     exact mul_self_eq_one_iff.mp (by linear_combination hub)
   obtain ⟨e1, e2, e3, -, -⟩ := pe_entries T r a0 a1 h0 h1 h01
-  have hcirc := pe_lock_entries T hT.unit r (T.cos r.y) hσ hs rfl a0 a1 h0 h1 h01
-  set M := Gen.M4.rotateE (fld R) T r a0 a1 a0 with hM
+  have hψs : T.sin (-(0 : R)) = 0 := by rw [neg_zero]; exact hT.sin_zero
+  have hψc : T.cos (-(0 : R)) = 1 := by rw [neg_zero]; exact hT.cos_zero
+  have hcirc := pe_lock2_entries T hT.unit r (T.cos r.y) (-(0 : R)) hσ hs rfl hψs hψc a0 a1 h0 h1 h01
   have hss := peSign_sq (R := R) a0 a1
   have hs2 : (peSign a0 a1 : R) * peSign a0 a1 = 1 := by rcases hss with h | h <;> rw [h] <;> ring
+  set M := Gen.M4.rotateE (fld R) T r a0 a1 a0 with hM
+  set m := Gen.M4.mul (fld R) M (Gen.M4.rotateAxis (fld R) T a0 (-(0 : R))) with hm
   have h10 : M a1 a0 = 0 := by rw [e2, hs]; ring
   have hk0 : M (3 - a0 - a1) a0 = 0 := by
     have : (-(peSign a0 a1 : R)) * M (3 - a0 - a1) a0 = 0 := by rw [e3, hs]; ring
@@ -258,23 +251,17 @@ theorem euler_pe_locked {T : Trig R} (hT : TrigOK T) {C : Cmp R} (hC : CmpStd C)
     obtain ⟨_, h2'⟩ := hC.sqrt 0 (le_refl _)
     exact mul_self_eq_zero.mp h2'
   have hcond : C.lt lim 0 = false := by rw [hC.lt]; simpa using hlim
-  obtain ⟨q1, q2⟩ := atan2_unit hT (-(peSign a0 a1 : R) * M a1 (3 - a0 - a1)) (M a1 a1)
-    (by linear_combination hcirc + (M a1 (3 - a0 - a1) * M a1 (3 - a0 - a1)) * hs2)
+  obtain ⟨q1, q2⟩ := atan2_unit hT ((peSign a0 a1 : R) * m (3 - a0 - a1) a1) (m a1 a1)
+    (by linear_combination hcirc + (m (3 - a0 - a1) a1 * m (3 - a0 - a1) a1) * hs2)
   obtain ⟨p1, p2⟩ := atan2_unit hT 0 (T.cos r.y) (by rcases hσ with h | h <;> rw [h] <;> ring)
   have hE : Gen.M4.eulerAngles (fld R) C T lim M a0 a1 a0 =
-      ⟨T.cos r.y * T.atan2 (-(peSign a0 a1 : R) * M a1 (3 - a0 - a1)) (M a1 a1), T.atan2 0 (T.cos r.y), 0⟩ := by
+      ⟨T.atan2 ((peSign a0 a1 : R) * m (3 - a0 - a1) a1) (m a1 a1), T.atan2 0 (T.cos r.y), 0⟩ := by
     unfold peSign
     simp only [Gen.M4.eulerAngles, ne_eq, not_true_eq_false, if_false, fld_mul, fld_add, fld_neg, fld_lit, Nat.cast_one, Nat.cast_zero,
-      h10, hk0, mul_zero, add_zero, hs0, hcond, Bool.false_eq_true, e1]
+      h10, hk0, mul_zero, add_zero, hs0, hcond, Bool.false_eq_true, e1, ← hm]
   rw [hE]
-  apply pe_lock_compose T r _ (T.cos r.y) hσ hs rfl a0 a1 h0 h1 h01
-  · show T.sin (T.cos r.y * T.atan2 (-(peSign a0 a1 : R) * M a1 (3 - a0 - a1)) (M a1 a1)) = _ ∧
-      T.cos (T.cos r.y * T.atan2 (-(peSign a0 a1 : R) * M a1 (3 - a0 - a1)) (M a1 a1)) = _
-    constructor
-    · rw [(trig_pm hT _ hσ _).1, q1]
-    · rw [(trig_pm hT _ hσ _).2, q2]
-  · exact ⟨p1, p2⟩
-  · exact ⟨hT.sin_zero, hT.cos_zero⟩
+  exact pe_lock2_compose T r _ (T.cos r.y) (-(0 : R)) hσ hs rfl hψs hψc a0 a1 h0 h1 h01 ⟨q1, q2⟩ ⟨p1, p2⟩
+    ⟨hT.sin_zero, hT.cos_zero⟩
 
 end euler
 
